@@ -695,8 +695,14 @@ def explore_case(case, model, rng, rec, budget, mp_runs, two_runs, workdir):
                               match_keys={"kind": "sequential-wrong", "target": target})
                 return
         if dmg and ref["result"] == ["ok"]:
-            rec.count(tier_key + ("benign", target), nontrivial=False)
-            rec.dist("damage_effect", "none (benign)")
+            if ref["outs"] == pref["outs"]:
+                rec.count(tier_key + ("benign", target), nontrivial=False)
+                rec.dist("damage_effect", "none (benign)")
+                return
+            # the member CRCs cannot all match data that differs from what was written (single flipped bit)
+            rec.violation("sequential path: folder %d is damaged (outputs differ from the members written) and extractall "
+                          "returned normally" % dfolder, {"kind": "sequential", "case": case, "target": target},
+                          match_keys={"kind": "sequential-worker-error-lost", "target": target})
             return
         failcodes = {}
         refops = dict(pref["ops"])
@@ -843,38 +849,44 @@ def explore_mp(case, path, lay, target, ref, pref, ws, pre_w, onames, outn, mode
             return
         res = sb["value"]["result"]
         outs = {k: bytes.fromhex(v) for k, v in (sb["value"]["outs"] or {}).items()}
-        # the model of the process path: any complete schedule (the outputs do not depend on it)
+        # the model of the process path: any complete schedule (the outputs do not depend on it); mode 2 is the code
+        # as it stands (thread queue copied into the children), mode 3 the code after the proposed repair
         sched = model.call("par_seq_sched", ws)
-        m = model.call("par_extract", [2, mt, sched, pre_w, ws, len(onames)])
-        m_outs, m_res = outs_from_model(m[0], onames), res_from_model(m[1])
-        agrees = (m_outs == outs and m_res == res_code(res))
-        if dmg:
-            if res[0] == "ok" or res[1] != ref["result"][1]:
-                vis = "none" if res[0] == "ok" else "post-pass-error"
-                rec.violation("mp=True, %s target: folder %d of %d is damaged (threads and the sequential path raise %s); "
-                              "the caller got %r -- the children's exception queue is a copy" % (
-                                  target, dmg["folder"], nf, ref["result"][1], res), rp,
-                              match_keys={"kind": "mp-worker-error-lost", "visible": vis, "target": target,
-                                          "model_agrees": agrees})
-            if not agrees:
-                rec.violation("mp=True, damaged: model says %r %r, py7zr %r %r" % (m_res, hexouts(m_outs), res, hexouts(outs)),
-                              rp, concrete=False, match_keys={"kind": "model-disagrees", "path": "processes"})
+        obs = (outs, res_code(res))
+        mm = {}
+        for md in (2, 3):
+            m = model.call("par_extract", [md, mt, sched, pre_w, ws, len(onames)])
+            mm[md] = (outs_from_model(m[0], onames), res_from_model(m[1]))
+        if obs == mm[3]:
+            rec.dist("mp_behaviour", "as threads" if mm[2] != mm[3] else "as threads (= as the defective model here)")
+            ok_prop = (res[:2] == ref["result"][:2]) if dmg else (res == ["ok"] and outs == ref["outs"])
+            if not ok_prop:
+                rec.violation("mp=True: result %r outputs %r; threads/sequential: %r" % (res, hexouts(outs), ref["result"]), rp,
+                              match_keys={"kind": "schedule-dependent-output", "target": target, "path": "processes"})
                 return
-        else:
-            if res != ["ok"] or outs != ref["outs"]:
-                if target == "mem" and res == ["ok"] and outs == {} and ref["outs"]:
-                    rec.violation("mp=True with a WriterFactory target: extractall returns normally and the factory has "
-                                  "received none of the %d members (the products are created in the child processes)" %
-                                  len(ref["outs"]), rp,
-                                  match_keys={"kind": "mp-factory-outputs-lost", "model_agrees": agrees})
-                else:
-                    rec.violation("mp=True, intact archive: result %r outputs %r; sequential path %r" % (
-                        res, hexouts(outs), hexouts(ref["outs"])), rp,
-                        match_keys={"kind": "schedule-dependent-output", "target": target, "path": "processes"})
-            if not agrees:
-                rec.violation("mp=True, intact: model says %r %r, py7zr %r %r" % (m_res, hexouts(m_outs), res, hexouts(outs)),
-                              rp, concrete=False, match_keys={"kind": "model-disagrees", "path": "processes"})
-                return
+            continue
+        agrees = obs == mm[2]
+        rec.dist("mp_behaviour", "errors/products lost" if agrees else "neither model")
+        if dmg and (res[0] == "ok" or res[1] != ref["result"][1]):
+            vis = "none" if res[0] == "ok" else "post-pass-error"
+            rec.violation("mp=True, %s target: folder %d of %d is damaged (threads and the sequential path raise %s); "
+                          "the caller got %r -- the children's exception queue is a copy" % (
+                              target, dmg["folder"], nf, ref["result"][1], res), rp,
+                          match_keys={"kind": "mp-worker-error-lost", "visible": vis, "target": target,
+                                      "model_agrees": agrees})
+        elif not dmg and target == "mem" and res == ["ok"] and outs == {} and ref["outs"]:
+            rec.violation("mp=True with a WriterFactory target: extractall returns normally and the factory has "
+                          "received none of the %d members (the products are created in the child processes)" %
+                          len(ref["outs"]), rp, match_keys={"kind": "mp-factory-outputs-lost", "model_agrees": agrees})
+        elif not dmg and (res != ["ok"] or outs != ref["outs"]):
+            rec.violation("mp=True, intact archive: result %r outputs %r; sequential path %r" % (
+                res, hexouts(outs), hexouts(ref["outs"])), rp,
+                match_keys={"kind": "schedule-dependent-output", "target": target, "path": "processes"})
+        if not agrees:
+            rec.violation("mp=True%s: py7zr %r %r; model of the code as it is: %r %r; model after the repair: %r %r" % (
+                ", damaged" if dmg else "", res, hexouts(outs), mm[2][1], hexouts(mm[2][0]), mm[3][1], hexouts(mm[3][0])),
+                rp, concrete=False, match_keys={"kind": "model-disagrees", "path": "processes"})
+            return
 
 
 def explore_two(case, path, lay, target, ref, pref, refops, ws, onames, outn, model, rng, rec, workdir, runs):
@@ -1050,17 +1062,50 @@ def gen_data(rng, n):
     return arch.pattern_bytes(rng, n, t)
 
 
+SHAPES = {"late_multi": False, "late_empty": False}
+
+
+def probe_shapes(rec):
+    """Two shapes of append-built archives were unreadable on the original tree because of defects of the writer /
+    reader that have nothing to do with scheduling (sub-stream sizes written at wrong indices when >= 2 members are
+    appended to an archive whose folders all have one member; member ids mis-numbered after an empty-stream entry
+    in a later folder).  Use a shape only if the INTACT archive reads back sequentially on this tree."""
+    probes = {
+        "late_multi": ([("p0", b"abc")], [([("p1", b"A" * 8), ("p2", b"B" * 40)], "copy")]),
+        "late_empty": ([("p0", b"abc")], [([("p1", b"A" * 8), ("e", b""), ("p2", b"B" * 5)], "copy")]),
+    }
+    for k, (first, sess) in probes.items():
+        try:
+            data = arch.make_archive(first, "copy", sessions=sess)
+            r = arch.read_archive(data)
+            want = first + sess[0][0]
+            SHAPES[k] = (r[0] == "ok" and sorted(r[2]) == sorted(want))
+        except Exception:  # noqa
+            SHAPES[k] = False
+        rec.note("shape_usable", {k: SHAPES[k]})
+
+
 def gen_case(rng, nf, maxm, sizes, chains, limit, first_empty=False):
+    """an archive of nf folders (= nf write/append sessions) of 1..maxm members (see probe_shapes)"""
+    cnts = [rng.randint(1, maxm) for _ in range(nf)]
+    first_multi = next((i for i, c in enumerate(cnts) if c > 1), None)
+    equal = None
+    if not SHAPES["late_multi"]:
+        if first_multi is not None and first_multi >= 2:
+            cnts[0] = max(2, cnts[0])
+        elif first_multi == 1:
+            equal = 1
     folders = []
     cnt = 0
     for f in range(nf):
         ms = []
-        for _ in range(rng.randint(1, maxm)):
-            n = rng.choice(sizes)
+        n_eq = rng.choice(sizes)
+        for _ in range(cnts[f]):
+            n = n_eq if equal == f else rng.choice(sizes)
             ms.append(["m%d_%d.bin" % (f, cnt), gen_data(rng, n).hex()])
             cnt += 1
-        if first_empty and f == 0:
-            ms.insert(rng.randrange(len(ms) + 1), ["empty.txt", ""])
+        if first_empty and (f == 0 or (SHAPES["late_empty"] and rng.random() < 0.5)):
+            ms.insert(rng.randrange(len(ms) + 1), ["empty%d.txt" % f, ""])
         folders.append({"chain": rng.choice(chains), "members": ms})
     return {"folders": folders, "limit": limit}
 
@@ -1095,12 +1140,12 @@ def plan(rng, tier):
         jobs.append((c, 1000 if quick else 20000, 1 if i == 0 else 0, 4 if i == 0 else 0))
     chains_q = ["copy", "lzma2"]
     chains_t = ["copy", "lzma2", "bzip2", "deflate", "zstd"]
-    shapes = [(2, 3), (3, 2), (3, 3), (4, 1), (4, 3)] if quick else [(nf, mm) for nf in (2, 3, 4) for mm in (1, 2, 3)] * 6
+    shapes = [(2, 3), (3, 2), (3, 3), (4, 1), (4, 3), (2, 2), (3, 3), (4, 2)] if quick else [(nf, mm) for nf in (2, 3, 4) for mm in (1, 2, 3)] * 6
     for i, (nf, maxm) in enumerate(shapes):
         c = gen_case(rng, nf, maxm, [1, 7, 8, 9, 17, 24, 40] if quick else [1, 7, 8, 9, 17, 24, 40, 100, 300],
                      chains_q if quick else chains_t, rng.choice([8, 16, 64]), first_empty=(i % 3 == 2))
-        jobs.append((c, 40 if quick else 400, 1 if (i == 1 or not quick and i % 6 == 0) else 0,
-                     6 if i in (0, 3) or not quick else 0))
+        jobs.append((c, 60 if quick else 400, 1 if (i == 1 or not quick and i % 6 == 0) else 0,
+                     6 if i in (0, 3, 6) or not quick else 0))
     return jobs
 
 
@@ -1144,6 +1189,9 @@ def run(ctx):
     model = ctx["model"]
     if model is None:
         return
+    prec = Rec()
+    probe_shapes(prec)
+    apply_events(rep, prec.events)
     jobs = plan(rng, tier)
     seeds = [rng.getrandbits(32) for _ in jobs]
     t0 = time.time()
@@ -1185,24 +1233,66 @@ def replay(d):
     try:
         if kind in ("threads", "two", "collision"):
             case = r["case"]
+            target = r.get("target", "file")
+            path, lay = build(case, wd)
+            nf = len(lay["folders"])
+            outn = py_outnames(lay["names"])
+            ref = reference(case, path, lay, wd, target)
+            want, refops = dict(ref["outs"]), dict(ref["ops"])
+            dmg = case.get("damage")
+            if dmg and not isinstance(dmg, list):
+                pcase = dict(case)
+                pcase["damage"] = None
+                pd = os.path.join(wd, "p")
+                os.makedirs(pd)
+                ppath, play = build(pcase, pd)
+                pref = reference(pcase, ppath, play, pd, target)
+                refops = dict(pref["ops"])
+                refops[dmg["folder"]] = ref["ops"][dmg["folder"]]
+                for f in range(dmg["folder"] + 1, nf):
+                    for i in lay["folders"][f]:
+                        want[outn[i]] = pref["outs"][outn[i]]
+            got = extract_controlled(path, lay, case["limit"], r["order"], target, wd, two=(kind == "two"))
+            print("sequential path:", ref["result"], hexouts(ref["outs"]))
+            print("expected of the parallel path:", ref["result"][:2], hexouts(want))
+            results = got["result"] if kind == "two" else [got["result"]]
+            outs = got["outs"] if kind == "two" else [got["outs"]]
+            bad = False
+            for i in range(len(results)):
+                print("object %d, order %r:" % (i, r["order"]), results[i], hexouts(outs[i]), got["run"].problems)
+                if results[i][:2] != ref["result"][:2] or outs[i] != want:
+                    bad = True
+            if kind != "collision" and not ref["ambiguous"]:
+                pw_ = per_worker(got["run"].trace)
+                for key, ops in sorted(pw_.items()):
+                    if ops != refops[key % nf]:
+                        print("worker %d did %r; its folder extracted alone: %r" % (key, summarize(ops), summarize(refops[key % nf])))
+                        bad = True
+            return 1 if bad else 0
+        if kind == "sequential":
+            case = r["case"]
             path, lay = build(case, wd)
             ref = extract_controlled(path, lay, case["limit"], [], r.get("target", "file"), wd, src="bytesio")
-            got = extract_controlled(path, lay, case["limit"], r["order"], r.get("target", "file"), wd, two=(kind == "two"))
-            print("sequential path:", ref["result"], hexouts(ref["outs"]))
-            if kind == "two":
-                for i in range(2):
-                    print("object %d:" % i, got["result"][i], hexouts(got["outs"][i]))
-                if case.get("damage"):
-                    bad = any(x[0] != "err" or x[1] != ref["result"][1] for x in got["result"])
-                else:
-                    bad = any(x != ["ok"] for x in got["result"]) or any(o != ref["outs"] for o in got["outs"])
-            else:
-                print("threads, order %r:" % (r["order"],), got["result"], hexouts(got["outs"]), got["run"].problems)
-                if case.get("damage"):
-                    bad = got["result"][0] != "err" or got["result"][1] != ref["result"][1]
-                else:
-                    bad = got["result"] != ["ok"] or got["outs"] != ref["outs"]
-            return 1 if bad else 0
+            pcase = dict(case)
+            pcase["damage"] = None
+            pd = os.path.join(wd, "p")
+            os.makedirs(pd)
+            ppath, play = build(pcase, pd)
+            pref = extract_controlled(ppath, play, case["limit"], [], r.get("target", "file"), pd, src="bytesio")
+            print("sequential path, archive as given:", ref["result"], hexouts(ref["outs"]))
+            print("sequential path, undamaged archive:", pref["result"], hexouts(pref["outs"]))
+            want = {}
+            outn = py_outnames(lay["names"])
+            k = 0
+            for ms in case_members(case):
+                for n, dta in ms:
+                    want[outn[k]] = dta
+                    k += 1
+            if pref["result"] != ["ok"] or pref["outs"] != want:
+                return 1
+            if case.get("damage") and ref["result"] == ["ok"] and ref["outs"] != pref["outs"]:
+                return 1
+            return 0
         if kind == "mp":
             case = r["case"]
             path, lay = build(case, wd)
